@@ -80,6 +80,22 @@ func (e *fnEnc) runTop() {
 			vc.assume(fmt.Sprintf("(not (= %s 0))", e.val[e.fn.Params[0]]))
 		}
 	}
+	// lock discipline: helpers that touch guarded state are entered with the mutex held, handlers without
+	if vc.Opt.SafetyKinds["lock"] && len(e.fn.Params) > 0 {
+		if pt, ok := e.fn.Params[0].Type().Underlying().(*types.Pointer); ok {
+			if g := vc.P.guardFor(pt.Elem()); g != nil {
+				if li := vc.P.Lock[e.fn]; li != nil {
+					h := e.heldTerm(pt.Elem(), g, e.val[e.fn.Params[0]])
+					if li.needs {
+						vc.assume(h)
+					} else {
+						vc.assume(sNot(h))
+					}
+					e.lockAtEntry = h
+				}
+			}
+		}
+	}
 	e.entryHeap = copyMap(e.cur)
 	for _, p := range e.fn.Params {
 		for _, f := range e.typeInvFormulas(e.val[p], p.Type(), e.entryHeap) {
